@@ -52,6 +52,13 @@ func drawSync(rt *rapid.T, p *Plan, tier string) *Plan {
 	sp.Interval = rapid.IntRange(2, 4).Draw(rt, "interval")
 	minB := 2*sp.Interval + 1
 	p.Blocks = drawBlocks(rt, minB, minB+10, p.Proto.P2PSig)
+	if rapid.IntRange(0, 3).Draw(rt, "longsource") == 0 {
+		// a source chain that crosses header hash pages (16 headers under the verif build tag): the sync point, the
+		// headers received ahead of the state and the target's restarts land on both sides of page boundaries
+		for n := rapid.IntRange(10, 32).Draw(rt, "nempty"); n > 0; n-- {
+			p.Blocks = append(p.Blocks, BlockPlan{})
+		}
+	}
 	sp.TargetGC = rapid.IntRange(0, 2).Draw(rt, "tgc") != 0
 	sp.TargetKL = sp.TargetGC && rapid.Bool().Draw(rt, "tkl")
 	sp.Backend = rapid.IntRange(0, 4).Draw(rt, "sbackend")
